@@ -271,8 +271,6 @@ Qed.
 
 Ltac splits := match goal with |- _ /\ _ => split; [|splits] | _ => idtac end.
 
-Lemma tiles_bytes_nonneg_aux : True. Proof. exact I. Qed.
-
 Definition dat_of (r : option (Z * list Z)) : option (list Z) :=
   match r with Some (_, d) => Some d | None => None end.
 Definition tiles_bytes (l : list (slot * list Z)) : Z :=
@@ -1000,3 +998,423 @@ Example v2_ex_run :
   | None => false
   end = true.
 Proof. vm_compute. reflexivity. Qed.
+
+(* ================================================================================================ *)
+(* Part 4: format v1                                                                                 *)
+
+Lemma v1_ioff_range s : slot_ok s -> 16 <= v1_ioff s /\ v1_ioff s + 5 <= 16 + 16384 * 5.
+Proof.
+  unfold slot_ok, v1_ioff, v1_tile_index_offset, BUNDLEX_V1_HEADER_SIZE, BUNDLEX_V1_GRID_HEIGHT.
+  destruct s as [x y]; cbn [fst snd]. lia.
+Qed.
+Lemma v1_ioff_disj s s' : slot_ok s -> slot_ok s' -> s <> s' -> v1_ioff s + 5 <= v1_ioff s' \/ v1_ioff s' + 5 <= v1_ioff s.
+Proof.
+  unfold slot_ok, v1_ioff, v1_tile_index_offset, BUNDLEX_V1_HEADER_SIZE, BUNDLEX_V1_GRID_HEIGHT.
+  destruct s as [x y], s' as [x' y']; cbn [fst snd]. intros H1 H2 Hne.
+  assert (x <> x' \/ y <> y') by (destruct (Z.eq_dec x x'); destruct (Z.eq_dec y y'); subst; tauto). lia.
+Qed.
+
+Lemma bytes_okl_app a b : bytes_okl a -> bytes_okl b -> bytes_okl (a ++ b).
+Proof. unfold bytes_okl. intros. apply Forall_app. auto. Qed.
+
+Lemma app2 {A} (a b r : list A) : a ++ b ++ r = (a ++ b) ++ r.
+Proof. now rewrite <- !app_assoc. Qed.
+Lemma app4 {A} (a b c d r : list A) : a ++ b ++ c ++ d ++ r = (a ++ b ++ c ++ d) ++ r.
+Proof. now rewrite <- !app_assoc. Qed.
+Lemma app5 {A} (a b c d e r : list A) : a ++ b ++ c ++ d ++ e ++ r = (a ++ b ++ c ++ d ++ e) ++ r.
+Proof. now rewrite <- !app_assoc. Qed.
+Lemma brd_bwrite_mid' f off l1 l2 n v o :
+  0 <= off -> 0 <= v < 256 ^ Z.of_nat n -> o = off + zlen l1 ->
+  brd (bwrite f off (l1 ++ le n v ++ l2)) o n = v.
+Proof. intros H0 Hv ->. now apply brd_bwrite_mid. Qed.
+
+Lemma v1_load_rec st s : v1_Inv st -> slot_ok s ->
+  v1_load st s = match v1_rec st s with Some (_, d) => RData d | None => RMissing end.
+Proof.
+  intros [_ [Hbi [Hbd [Hli [Hent _]]]]] Hs. destruct st as [idx dat]. cbn [fst snd] in *.
+  destruct (v1_ioff_range s Hs) as [I1 I2].
+  unfold v1_load, v1_tile_offset. rewrite brdnum_some by (rewrite Hli; unfold X1; change (Z.of_nat 5) with 5; lia).
+  unfold v1_rec. cbn [fst snd]. specialize (Hent s Hs). cbv zeta in Hent.
+  set (off := brd idx (v1_ioff s) 5) in *.
+  destruct (off =? 0) eqn:E0; [reflexivity|]. destruct Hent as [?|[H60 Hin]]; [lia|].
+  pose proof (brd_bound dat off 4 Hbd) as Hn. rewrite pow4 in Hn.
+  rewrite brdnum_some by (change (Z.of_nat 4) with 4; lia).
+  set (n := brd dat off 4) in *.
+  destruct (n =? 0) eqn:En.
+  - destruct (n <=? 0) eqn:E1; [reflexivity|lia].
+  - destruct (n <=? 0) eqn:E1; [lia|]. rewrite breadz_full by lia.
+    destruct (bread dat (off + 4) (Z.to_nat n)) eqn:Eb; [apply bread_nil_iff in Eb; lia|reflexivity].
+Qed.
+
+Lemma v1_hdr_pack_some h0 h1 h2 h3 h4 h5 h6 h7 h8 h9 h10 h11 :
+  0 <= h0 < two32 -> 0 <= h1 < two32 -> 0 <= h2 < two32 -> 0 <= h3 < two32 ->
+  0 <= h4 < two64 -> 0 <= h5 < two64 -> 0 <= h6 < two64 ->
+  0 <= h7 < two32 -> 0 <= h8 < two32 -> 0 <= h9 < two32 -> 0 <= h10 < two32 -> 0 <= h11 < two32 ->
+  v1_hdr_pack [h0; h1; h2; h3; h4; h5; h6; h7; h8; h9; h10; h11] =
+  Some (le 4 h0 ++ le 4 h1 ++ le 4 h2 ++ le 4 h3 ++ le 8 h4 ++ le 8 h5 ++ le 8 h6 ++
+        le 4 h7 ++ le 4 h8 ++ le 4 h9 ++ le 4 h10 ++ le 4 h11).
+Proof.
+  intros. unfold v1_hdr_pack. cbn [forallb].
+  match goal with |- (if ?c then _ else _) = _ => assert (E : c = true) by lia; rewrite E end. reflexivity.
+Qed.
+
+Lemma v1_store_facts st s d :
+  v1_Inv st -> slot_ok s -> bytes_okl d -> zlen d < two32 -> v1_dlen st + 4 + zlen d < two40 ->
+  exists st', v1_store1 st s d = Some st' /\ v1_extra st' /\ v1_dlen st' = v1_dlen st + 4 + zlen d /\
+    v1_rec st' s = (if zlen d =? 0 then None else Some (v1_dlen st, d)) /\
+    forall s', slot_ok s' -> s' <> s -> v1_rec st' s' = v1_rec st s'.
+Proof.
+  intros [[G1 [G2 _]] [Hbi [Hbd [Hli [Hent [H5 [H4 Hmax]]]]]]] Hs Hd Hm Hg.
+  destruct st as [idx dat]. unfold v1_dlen in *. cbn [fst snd] in *.
+  pose proof (zlen_nonneg d) as Hz. destruct (v1_ioff_range s Hs) as [I1 I2].
+  set (e := blen dat) in *. set (size := zlen d) in *.
+  assert (HB1 : B1 = 65596) by reflexivity. assert (HX1 : X1 = 81952) by reflexivity.
+  assert (T40 : two40 = 1099511627776) by reflexivity. assert (T32 : two32 = 4294967296) by reflexivity.
+  assert (T64 : two64 = 18446744073709551616) by reflexivity.
+  unfold v1_store1, v1_tile_offset.
+  rewrite brdnum_some by (rewrite Hli; change (Z.of_nat 5) with 5; lia).
+  set (prev := brd idx (v1_ioff s) 5).
+  assert (Hnew : exists b, (if prev =? 0 then Some true
+                            else match brdnum dat prev 4 with None => None | Some n => Some (negb (0 <? n)) end) = Some b).
+  { destruct (prev =? 0) eqn:E0; [eexists; reflexivity|].
+    unfold prev in *. destruct (Hent s Hs) as [H|[H60 Hin]]; [lia|].
+    pose proof (brd_bound dat (brd idx (v1_ioff s) 5) 4 Hbd). rewrite brdnum_some by (change (Z.of_nat 4) with 4; fold e; lia).
+    eexists; reflexivity. }
+  destruct Hnew as [is_new Hnew]. rewrite Hnew. fold size. fold e.
+  destruct (e =? 0) eqn:Ee; [lia|]. destruct (two32 <=? size) eqn:E32; [lia|]. clear Ee E32.
+  set (dat1 := bwrite dat e (le 4 size)). set (dat2 := bwrite dat1 (e + 4) d).
+  assert (L1 : blen dat1 = e + 4) by (unfold dat1; rewrite blen_bwrite, zlen_le; fold e; lia).
+  assert (L2 : blen dat2 = e + 4 + size) by (unfold dat2; rewrite blen_bwrite, L1; fold size; lia).
+  assert (Hb1 : bytes_ok dat1) by (apply bytes_ok_bwrite; [assumption|apply le_bytes|fold e; lia]).
+  assert (Hb2 : bytes_ok dat2) by (apply bytes_ok_bwrite; [assumption|assumption|lia]).
+  assert (F2 : forall o n, o + Z.of_nat n <= e -> bread dat2 o n = bread dat o n).
+  { intros o n Hn. unfold dat2, dat1. rewrite bread_bwrite_out by (fold dat1; fold size; lia).
+    rewrite bread_bwrite_out by (rewrite ?zlen_le; fold e; lia). reflexivity. }
+  unfold v1_hdr_unpack. destruct (60 <=? blen dat2) eqn:E60; [|lia]. clear E60.
+  assert (R : forall o n, o + Z.of_nat n <= e -> brd dat2 o n = brd dat o n) by (intros; unfold brd; now rewrite F2).
+  rewrite !R by (cbn; lia).
+  pose proof (brd_bound dat 0 4 Hbd) as B0. pose proof (brd_bound dat 4 4 Hbd) as B1'. pose proof (brd_bound dat 8 4 Hbd) as B2'.
+  pose proof (brd_bound dat 12 4 Hbd) as B3. pose proof (brd_bound dat 16 8 Hbd) as B4. pose proof (brd_bound dat 32 8 Hbd) as B6.
+  pose proof (brd_bound dat 40 4 Hbd) as B7. pose proof (brd_bound dat 44 4 Hbd) as B8. pose proof (brd_bound dat 48 4 Hbd) as B9.
+  pose proof (brd_bound dat 52 4 Hbd) as B10. pose proof (brd_bound dat 56 4 Hbd) as B11.
+  rewrite pow4 in *. rewrite pow8 in *.
+  set (h4' := if is_new then brd dat 16 8 + 4 else brd dat 16 8).
+  assert (Hh4 : 0 <= h4' <= brd dat 16 8 + 4) by (unfold h4'; destruct is_new; lia).
+  rewrite v1_hdr_pack_some by lia.
+  set (hb := le 4 (brd dat 0 4) ++ le 4 (brd dat 4 4) ++ le 4 (Z.max (brd dat 8 4) size) ++ le 4 (brd dat 12 4) ++
+             le 8 h4' ++ le 8 (brd dat 24 8 + size + 4) ++ le 8 (brd dat 32 8) ++ le 4 (brd dat 40 4) ++
+             le 4 (brd dat 44 4) ++ le 4 (brd dat 48 4) ++ le 4 (brd dat 52 4) ++ le 4 (brd dat 56 4)).
+  assert (Lhb : zlen hb = 60) by (unfold hb; rewrite !zlen_app, !zlen_le; reflexivity).
+  assert (Hhb : bytes_okl hb) by (unfold hb; repeat apply bytes_okl_app; apply le_bytes).
+  set (dat3 := bwrite dat2 0 hb). set (idx' := bwrite idx (v1_ioff s) (le 5 e)).
+  assert (L3 : blen dat3 = e + 4 + size) by (unfold dat3; rewrite blen_bwrite, L2, Lhb; lia).
+  assert (Li : blen idx' = X1) by (unfold idx'; rewrite blen_bwrite, zlen_le, Hli; change (Z.of_nat 5) with 5; lia).
+  assert (F3 : forall o n, 60 <= o -> bread dat3 o n = bread dat2 o n).
+  { intros o n Ho. unfold dat3. apply bread_bwrite_out; [lia|rewrite Lhb; lia]. }
+  assert (F : forall o n, 60 <= o -> o + Z.of_nat n <= e -> bread dat3 o n = bread dat o n).
+  { intros o n Ho Hn. rewrite F3 by lia. now apply F2. }
+  assert (Fi : forall o n, o + Z.of_nat n <= v1_ioff s \/ v1_ioff s + 5 <= o -> bread idx' o n = bread idx o n).
+  { intros o n H. unfold idx'. apply bread_bwrite_out; [lia|rewrite zlen_le; change (Z.of_nat 5) with 5; lia]. }
+  assert (Hent' : brd idx' (v1_ioff s) 5 = e) by (unfold idx'; apply brd_bwrite_same; [lia|rewrite pow5; lia]).
+  assert (Hsz : brd dat3 e 4 = size).
+  { unfold brd. rewrite F3 by lia. unfold dat2. rewrite bread_bwrite_out by (change (Z.of_nat 4) with 4; lia).
+    fold (brd dat1 e 4). unfold dat1. apply brd_bwrite_same; [fold e; lia|rewrite pow4; lia]. }
+  assert (Hdat : bread dat3 (e + 4) (length d) = d).
+  { rewrite F3 by lia. unfold dat2. apply bread_bwrite_same. lia. }
+  assert (Hh2 : brd dat3 8 4 = Z.max (brd dat 8 4) size).
+  { unfold dat3, hb. rewrite app2. apply brd_bwrite_mid'; [lia|rewrite pow4; lia|rewrite !zlen_app, !zlen_le; reflexivity]. }
+  assert (Hh4' : brd dat3 16 8 = h4').
+  { unfold dat3, hb. rewrite app4. apply brd_bwrite_mid'; [lia|rewrite pow8; lia|rewrite !zlen_app, !zlen_le; reflexivity]. }
+  assert (Hh5 : brd dat3 24 8 = brd dat 24 8 + size + 4).
+  { unfold dat3, hb. rewrite app5. apply brd_bwrite_mid'; [lia|rewrite pow8; lia|rewrite !zlen_app, !zlen_le; reflexivity]. }
+  assert (Hother : forall s', slot_ok s' -> s' <> s -> v1_rec (idx', dat3) s' = v1_rec (idx, dat) s').
+  { intros s' Hs' Hne. destruct (v1_ioff_range s' Hs') as [J1 J2].
+    pose proof (v1_ioff_disj s s' Hs Hs' (fun H => Hne (eq_sym H))) as Hdis.
+    unfold v1_rec. cbn [fst snd].
+    assert (Ev : brd idx' (v1_ioff s') 5 = brd idx (v1_ioff s') 5) by (unfold brd; rewrite Fi by (change (Z.of_nat 5) with 5; lia); reflexivity).
+    rewrite Ev. specialize (Hent s' Hs'). cbv zeta in Hent. set (off := brd idx (v1_ioff s') 5) in *.
+    destruct (off =? 0) eqn:E0; [reflexivity|]. destruct Hent as [?|[H60 Hin]]; [lia|]. fold e in Hin.
+    pose proof (brd_bound dat off 4 Hbd) as Hn. rewrite pow4 in Hn.
+    assert (En : brd dat3 off 4 = brd dat off 4) by (unfold brd; rewrite F by (change (Z.of_nat 4) with 4; lia); reflexivity).
+    rewrite En. destruct (brd dat off 4 =? 0) eqn:E1; [reflexivity|]. f_equal. f_equal. apply F; lia. }
+  exists (idx', dat3). splits.
+  - reflexivity.
+  - unfold v1_extra. cbn [fst snd]. splits.
+    + unfold idx'. apply bytes_ok_bwrite; [assumption|apply le_bytes|lia].
+    + unfold dat3. apply bytes_ok_bwrite; [assumption|assumption|lia].
+    + exact Li.
+    + intros s' Hs'. cbv zeta. destruct (slot_eq_dec s' s) as [->|Hne].
+      * right. rewrite Hent', Hsz, L3. lia.
+      * destruct (v1_ioff_range s' Hs') as [J1 J2].
+        pose proof (v1_ioff_disj s s' Hs Hs' (fun H => Hne (eq_sym H))) as Hdis.
+        assert (Ev : brd idx' (v1_ioff s') 5 = brd idx (v1_ioff s') 5) by (unfold brd; rewrite Fi by (change (Z.of_nat 5) with 5; lia); reflexivity).
+        rewrite Ev. specialize (Hent s' Hs'). cbv zeta in Hent. set (off := brd idx (v1_ioff s') 5) in *.
+        destruct Hent as [H0|[H60 Hin]]; [left; exact H0|right]. fold e in Hin.
+        pose proof (brd_bound dat off 4 Hbd) as Hn. rewrite pow4 in Hn.
+        assert (En : brd dat3 off 4 = brd dat off 4)
+          by (unfold brd; rewrite F by (change (Z.of_nat 4) with 4; lia); reflexivity).
+        rewrite En, L3. lia.
+    + rewrite Hh5, L3, H5. lia.
+    + rewrite Hh4', L3. lia.
+    + intros s' a d' Hs' Hr. rewrite Hh2. destruct (slot_eq_dec s' s) as [->|Hne].
+      * unfold v1_rec in Hr. cbn [fst snd] in Hr. rewrite Hent', Hsz in Hr.
+        destruct (e =? 0); [discriminate|]. destruct (size =? 0) eqn:Es; [discriminate|].
+        inversion Hr; subst a d'. rewrite zlen_bread. lia.
+      * rewrite Hother in Hr by assumption. specialize (Hmax s' a d' Hs' Hr). lia.
+  - cbn [snd]. exact L3.
+  - unfold v1_rec. cbn [fst snd]. rewrite Hent', Hsz. destruct (e =? 0) eqn:Ee; [lia|].
+    destruct (size =? 0) eqn:Es; [reflexivity|]. f_equal. f_equal.
+    replace (Z.to_nat size) with (length d) by (unfold size, zlen; lia). exact Hdat.
+  - exact Hother.
+Qed.
+
+Lemma v1_remove_facts st s : v1_Inv st -> slot_ok s ->
+  v1_extra (v1_remove1 st s) /\ v1_dlen (v1_remove1 st s) = v1_dlen st /\ v1_rec (v1_remove1 st s) s = None /\
+  forall s', slot_ok s' -> s' <> s -> v1_rec (v1_remove1 st s) s' = v1_rec st s'.
+Proof.
+  intros [_ [Hbi [Hbd [Hli [Hent [H5 [H4 Hmax]]]]]]] Hs. destruct st as [idx dat]. unfold v1_dlen, v1_remove1. cbn [fst snd] in *.
+  destruct (v1_ioff_range s Hs) as [I1 I2]. assert (HX1 : X1 = 81952) by reflexivity.
+  change [0; 0; 0; 0; 0] with (le 5 0). set (idx' := bwrite idx (v1_ioff s) (le 5 0)).
+  assert (Li : blen idx' = X1) by (unfold idx'; rewrite blen_bwrite, zlen_le, Hli; change (Z.of_nat 5) with 5; lia).
+  assert (Fi : forall o n, o + Z.of_nat n <= v1_ioff s \/ v1_ioff s + 5 <= o -> bread idx' o n = bread idx o n).
+  { intros o n H. unfold idx'. apply bread_bwrite_out; [lia|rewrite zlen_le; change (Z.of_nat 5) with 5; lia]. }
+  assert (Hz : brd idx' (v1_ioff s) 5 = 0) by (unfold idx'; apply brd_bwrite_same; [lia|rewrite pow5; unfold two40; lia]).
+  assert (Hev : forall s', slot_ok s' -> s' <> s -> brd idx' (v1_ioff s') 5 = brd idx (v1_ioff s') 5).
+  { intros s' Hs' Hne. destruct (v1_ioff_range s' Hs') as [J1 J2].
+    pose proof (v1_ioff_disj s s' Hs Hs' (fun H => Hne (eq_sym H))) as Hdis.
+    unfold brd. rewrite Fi by (change (Z.of_nat 5) with 5; lia). reflexivity. }
+  assert (Hother : forall s', slot_ok s' -> s' <> s -> v1_rec (idx', dat) s' = v1_rec (idx, dat) s').
+  { intros s' Hs' Hne. unfold v1_rec. cbn [fst snd]. now rewrite Hev. }
+  assert (Hself : v1_rec (idx', dat) s = None) by (unfold v1_rec; cbn [fst snd]; rewrite Hz; reflexivity).
+  splits; [|reflexivity|exact Hself|exact Hother].
+  unfold v1_extra. cbn [fst snd]. splits; auto.
+  - unfold idx'. apply bytes_ok_bwrite; [assumption|apply le_bytes|lia].
+  - intros s' Hs'. cbv zeta. destruct (slot_eq_dec s' s) as [->|Hne]; [left; exact Hz|].
+    rewrite Hev by assumption. apply (Hent s' Hs').
+  - intros s' a d' Hs' Hr. destruct (slot_eq_dec s' s) as [->|Hne]; [congruence|].
+    rewrite Hother in Hr by assumption. eapply Hmax; eauto.
+Qed.
+
+Lemma v1_init_entries_find : forall n k p m q,
+  PositiveMap.find q (v1_init_entries n k p m) =
+  if (Zpos p <=? Zpos q) && (Zpos q <? Zpos p + 5 * Z.of_nat n)
+  then Some (nth (Z.to_nat ((Zpos q - Zpos p) mod 5)) (le 5 ((k + (Zpos q - Zpos p) / 5) * 4 + 60)) 0)
+  else PositiveMap.find q m.
+Proof.
+  induction n; intros k p m q.
+  - cbn [v1_init_entries]. destruct ((Z.pos p <=? Z.pos q) && (Z.pos q <? Z.pos p + 5 * Z.of_nat 0)) eqn:E; [lia|reflexivity].
+  - cbn [v1_init_entries]. rewrite IHn, put_bytes_find, zlen_le. rewrite Pos2Z.inj_add.
+    change (Z.of_nat 5) with 5.
+    destruct ((Z.pos p + 5 <=? Z.pos q) && (Z.pos q <? Z.pos p + 5 + 5 * Z.of_nat n)) eqn:E1;
+    destruct ((Z.pos p <=? Z.pos q) && (Z.pos q <? Z.pos p + 5 * Z.of_nat (S n))) eqn:E2; try lia.
+    + f_equal. f_equal; [f_equal; lia|f_equal; lia].
+    + destruct ((Z.pos p <=? Z.pos q) && (Z.pos q <? Z.pos p + 5)) eqn:E3; [|lia].
+      f_equal. f_equal; [f_equal; lia|f_equal; lia].
+    + destruct ((Z.pos p <=? Z.pos q) && (Z.pos q <? Z.pos p + 5)) eqn:E3; [lia|reflexivity].
+Qed.
+
+Lemma v1_init_idx_entry s : slot_ok s -> brd v1_init_idx (v1_ioff s) 5 = (fst s * 128 + snd s) * 4 + 60.
+Proof.
+  intros Hs. destruct (v1_ioff_range s Hs) as [I1 I2].
+  set (k := fst s * 128 + snd s).
+  assert (Hk : v1_ioff s = 16 + 5 * k /\ 0 <= k < 16384).
+  { unfold k, v1_ioff, v1_tile_index_offset, BUNDLEX_V1_HEADER_SIZE, BUNDLEX_V1_GRID_HEIGHT, slot_ok in *. lia. }
+  destruct Hk as [Hio Hk].
+  assert (E : bread v1_init_idx (v1_ioff s) 5 = le 5 (k * 4 + 60)).
+  { rewrite <- (map_nth_seq (le 5 (k * 4 + 60))). rewrite length_le. unfold bread. apply map_ext_in. intros j Hj. apply in_seq in Hj.
+    unfold bbyte, v1_init_idx. cbn [blen bover binit].
+    destruct ((0 <=? v1_ioff s + Z.of_nat j) && (v1_ioff s + Z.of_nat j <? X1)) eqn:Er; [|unfold X1 in *; lia].
+    rewrite v1_init_entries_find. rewrite Z2Pos.id by lia. change (Z.pos 17) with 17. change (Z.of_nat (128 * 128)) with 16384.
+    destruct ((17 <=? v1_ioff s + Z.of_nat j + 1) && (v1_ioff s + Z.of_nat j + 1 <? 17 + 5 * 16384)) eqn:E2; [|lia].
+    f_equal; [f_equal; lia|f_equal; lia]. }
+  unfold brd. rewrite E. apply unle_le. rewrite pow5. unfold two40. lia.
+Qed.
+
+Lemma v1_init_hdr_bytes c r : bytes_okl (v1_init_hdr c r).
+Proof. unfold v1_init_hdr. repeat apply bytes_okl_app; apply le_bytes. Qed.
+
+Lemma v1_const_bytes : bytes_okl v1_index_header /\ bytes_okl v1_index_footer.
+Proof.
+  assert (B : forall l, forallb (fun b => (0 <=? b) && (b <? 256)) l = true -> bytes_okl l).
+  { intros l H. apply Forall_forall. intros b Hb. rewrite forallb_forall in H. specialize (H b Hb). lia. }
+  split; apply B; reflexivity.
+Qed.
+
+Lemma v1_init_dat_byte c r i : bbyte (v1_init_dat c r) i =
+  if (0 <=? i) && (i <? B1) then (if i <? 60 then nth (Z.to_nat i) (v1_init_hdr c r) 0 else 0) else 0.
+Proof. unfold bbyte, v1_init_dat, bnew. cbn [blen bover binit]. now rewrite PositiveMap.gempty. Qed.
+
+Lemma v1_init_dat_zero c r o : 60 <= o -> brd (v1_init_dat c r) o 4 = 0.
+Proof.
+  intros Ho. unfold brd, bread. cbn [seq map]. rewrite !v1_init_dat_byte.
+  repeat match goal with |- context [if ?c then _ else _] => destruct c eqn:?; try lia end; reflexivity.
+Qed.
+
+Lemma v1_init_dat_h5 c r : brd (v1_init_dat c r) 24 8 = B1 /\ brd (v1_init_dat c r) 16 8 = 0.
+Proof.
+  split; unfold brd, bread; cbn [seq map]; rewrite !v1_init_dat_byte; unfold v1_init_hdr; cbn; reflexivity.
+Qed.
+
+Lemma v1_fresh_facts c r :
+  v1_extra (v1_init c r) /\ v1_dlen (v1_init c r) = B1 /\ forall s, slot_ok s -> v1_rec (v1_init c r) s = None.
+Proof.
+  assert (HB1 : B1 = 65596) by reflexivity.
+  assert (Hoff : forall s, slot_ok s -> 60 <= brd v1_init_idx (v1_ioff s) 5 /\ brd v1_init_idx (v1_ioff s) 5 + 4 <= B1).
+  { intros s Hs. rewrite v1_init_idx_entry by assumption. unfold slot_ok in Hs. lia. }
+  assert (Hnone : forall s, slot_ok s -> v1_rec (v1_init c r) s = None).
+  { intros s Hs. unfold v1_rec, v1_init. cbn [fst snd]. destruct (Hoff s Hs) as [H1 H2].
+    destruct (brd v1_init_idx (v1_ioff s) 5 =? 0) eqn:E; [reflexivity|]. now rewrite v1_init_dat_zero. }
+  splits; [|reflexivity|exact Hnone].
+  unfold v1_extra, v1_init. cbn [fst snd]. destruct v1_const_bytes as [Hh Hf]. destruct (v1_init_dat_h5 c r) as [E5 E4]. splits.
+  - intros i. unfold bbyte, v1_init_idx. cbn [blen bover binit].
+    destruct ((0 <=? i) && (i <? X1)); [|lia]. rewrite v1_init_entries_find.
+    destruct ((Z.pos 17 <=? Z.pos (Z.to_pos (i + 1))) && (Z.pos (Z.to_pos (i + 1)) <? Z.pos 17 + 5 * Z.of_nat (128 * 128))).
+    + apply bytes_okl_nth, le_bytes.
+    + rewrite PositiveMap.gempty. destruct (i <? 16); apply bytes_okl_nth; assumption.
+  - intros i. rewrite v1_init_dat_byte. destruct ((0 <=? i) && (i <? B1)); [|lia].
+    destruct (i <? 60); [apply bytes_okl_nth, v1_init_hdr_bytes|lia].
+  - reflexivity.
+  - intros s Hs. cbv zeta. right. destruct (Hoff s Hs) as [H1 H2]. split; [exact H1|].
+    rewrite v1_init_dat_zero by assumption. change (blen (v1_init_dat c r)) with B1. lia.
+  - rewrite E5. reflexivity.
+  - rewrite E4. change (blen (v1_init_dat c r)) with B1. lia.
+  - intros s a d Hs Hr. rewrite Hnone in Hr by assumption. discriminate.
+Qed.
+
+(* --- the theorems of the generic part, for v1 (c, r = first column and row of the bundle) *)
+Definition v1_live_sum := g_live_sum v1st v1_rec.
+
+Ltac inst_v1 c r lem X :=
+  pose proof (lem v1st v1_load v1_store1 v1_remove1 (v1_init c r) v1_rec v1_dlen B1 two32 v1_extra) as X;
+  repeat first [specialize (X v1_load_rec) | specialize (X v1_store_facts) | specialize (X v1_remove_facts)
+               | specialize (X (v1_fresh_facts c r))].
+
+Theorem v1_inv_init c r : v1_Inv (v1_init c r).
+Proof. inst_v1 c r g_inv_fresh X. exact X. Qed.
+
+Theorem v1_inv_store st s d :
+  v1_Inv st -> slot_ok s -> bytes_okl d -> zlen d < two32 -> v1_dlen st + 4 + zlen d < two40 ->
+  exists st', v1_store1 st s d = Some st' /\ v1_Inv st' /\ v1_dlen st' = v1_dlen st + 4 + zlen d /\
+    v1_load st' s = (if zlen d =? 0 then RMissing else RData d) /\
+    forall s', slot_ok s' -> s' <> s -> v1_load st' s' = v1_load st s'.
+Proof.
+  intros HI Hs Hd Hm Hg. inst_v1 0 0 g_inv_store X.
+  destruct (X st s d HI Hs Hd Hm Hg) as [st' [E [HI' [Hl [Hr Ho]]]]].
+  exists st'. splits; auto.
+  - rewrite v1_load_rec by assumption. rewrite Hr. destruct (zlen d =? 0); reflexivity.
+  - intros s' Hs' Hne. rewrite !v1_load_rec by assumption. now rewrite Ho.
+Qed.
+
+Theorem v1_inv_remove st s : v1_Inv st -> slot_ok s ->
+  v1_Inv (v1_remove1 st s) /\ v1_dlen (v1_remove1 st s) = v1_dlen st /\ v1_load (v1_remove1 st s) s = RMissing /\
+  forall s', slot_ok s' -> s' <> s -> v1_load (v1_remove1 st s) s' = v1_load st s'.
+Proof.
+  intros HI Hs. inst_v1 0 0 g_inv_remove X. destruct (X st s HI Hs) as [HI' [Hl [Hr Ho]]].
+  splits; auto.
+  - rewrite v1_load_rec by assumption. now rewrite Hr.
+  - intros s' Hs' Hne. rewrite !v1_load_rec by assumption. now rewrite Ho.
+Qed.
+
+Theorem v1_history_inv c r ops :
+  Forall (op_ok two32) ops -> B1 + ops_bytes ops < two40 ->
+  exists st, v1_run c r ops = Some st /\ v1_Inv st /\ v1_dlen st = B1 + ops_bytes ops.
+Proof.
+  intros Hf Hg. inst_v1 c r g_history_inv X.
+  exact (X ops (v1_init c r) (v1_inv_init c r) Hf Hg).
+Qed.
+
+Theorem v1_defrag_correct c r st : v1_Inv st -> v1_dlen st < two40 ->
+  exists o, v1_defrag c r st = Some o /\
+    (forall s, slot_ok s -> g_load_opt v1st v1_load o s = v1_load st s) /\
+    (forall st', o = Some st' -> v1_Inv st' /\ v1_dlen st' = B1 + v1_live_sum st /\ v1_dlen st' <= v1_dlen st /\
+                                 blen (fst st') = blen (fst st)) /\
+    (o = None -> v1_live_sum st = 0).
+Proof.
+  intros HI Hg. inst_v1 c r g_defrag_spec X. destruct (X st HI Hg) as [o [E [Hl [Hs Hn]]]].
+  exists o. splits; auto. intros st' ->. destruct (Hs st' eq_refl) as [HI' [H1 H2]]. splits; auto.
+  destruct HI as [_ [_ [_ [Hli _]]]]. destruct HI' as [_ [_ [_ [Hli' _]]]]. congruence.
+Qed.
+
+(* the invariant in the words of the property *)
+Theorem v1_inv_readable st x y : v1_Inv st -> 0 <= x < 128 -> 0 <= y < 128 ->
+  let offset := brd (fst st) (16 + (x * 128 + y) * 5) 5 in
+  let size := brd (snd st) offset 4 in
+  offset = 0 \/
+  (60 <= offset /\ offset + 4 + size <= blen (snd st) /\
+   (size = 0 /\ v1_load st (x, y) = RMissing \/
+    0 < size < two32 /\ B1 <= offset /\ v1_load st (x, y) = RData (bread (snd st) (offset + 4) (Z.to_nat size)))).
+Proof.
+  intros HI Hx Hy. assert (Hs : slot_ok (x, y)) by (unfold slot_ok; cbn [fst snd]; lia).
+  pose proof (v1_load_rec st (x, y) HI Hs) as Hl. destruct HI as [[G1 [G2 _]] [Hbi [Hbd [Hli [Hent _]]]]].
+  specialize (G2 (x, y)). specialize (Hent (x, y) Hs). unfold v1_rec in *. cbv zeta in *.
+  change (v1_ioff (x, y)) with (16 + (x * 128 + y) * 5) in *.
+  set (off := brd (fst st) (16 + (x * 128 + y) * 5) 5) in *.
+  destruct Hent as [H0|[H60 Hin]]; [left; exact H0|right].
+  destruct (off =? 0) eqn:E0; [lia|]. pose proof (brd_bound (snd st) off 4 Hbd) as Hn. rewrite pow4 in Hn.
+  splits; [exact H60|exact Hin|]. destruct (brd (snd st) off 4 =? 0) eqn:E1.
+  - left. split; [lia|exact Hl].
+  - right. destruct (G2 _ _ Hs eq_refl) as [Ha _]. splits; [lia|exact Ha|exact Hl].
+Qed.
+
+Lemma v1_tos_rec st s : v1_Inv st -> slot_ok s ->
+  match v1_tile_offset (fst st) s with
+  | None => False
+  | Some offset => if offset =? 0 then rec_len (v1_rec st s) = 0
+                   else exists size, brdnum (snd st) offset 4 = Some size /\
+                                     (if size =? 0 then 0 else size + 4) = rec_len (v1_rec st s)
+  end.
+Proof.
+  intros [_ [Hbi [Hbd [Hli [Hent _]]]]] Hs. destruct (v1_ioff_range s Hs) as [I1 I2].
+  unfold v1_tile_offset. rewrite brdnum_some by (rewrite Hli; unfold X1; change (Z.of_nat 5) with 5; lia).
+  unfold v1_rec. specialize (Hent s Hs). cbv zeta in Hent. set (off := brd (fst st) (v1_ioff s) 5) in *.
+  destruct (off =? 0) eqn:E0; [reflexivity|]. destruct Hent as [?|[H60 Hin]]; [lia|].
+  pose proof (brd_bound (snd st) off 4 Hbd) as Hn. rewrite pow4 in Hn.
+  exists (brd (snd st) off 4). split; [apply brdnum_some; change (Z.of_nat 4) with 4; lia|].
+  destruct (brd (snd st) off 4 =? 0) eqn:E1; [reflexivity|]. cbn [rec_len]. rewrite zlen_bread. lia.
+Qed.
+
+Theorem v1_size_exact st : v1_Inv st -> v1_size st = Some (B1 + v1_live_sum st, v1_dlen st).
+Proof.
+  intros HI. unfold v1_size, v1_live_sum, g_live_sum, v1_dlen. destruct st as [idx dat] eqn:Est. rewrite <- Est in HI.
+  assert (Hall : forall s, In s all_slots -> slot_ok s) by (intros s; apply in_all_slots).
+  assert (G : forall ss t, (forall s, In s ss -> slot_ok s) ->
+    fold_left (fun acc s => match acc with
+                            | None => None
+                            | Some t => match v1_tile_offset idx s with
+                                        | None => None
+                                        | Some offset =>
+                                            if offset =? 0 then Some t else
+                                            match brdnum dat offset 4 with
+                                            | None => None
+                                            | Some size => Some (if size =? 0 then t else t + size + 4)
+                                            end
+                                        end
+                            end) ss (Some t) = Some (t + g_live_sum_on v1st v1_rec (idx, dat) ss)).
+  { induction ss as [|s ss IH]; intros t Hok.
+    - cbn. f_equal. lia.
+    - cbn [fold_left]. pose proof (v1_tos_rec st s HI (Hok s (or_introl eq_refl))) as H. rewrite Est in H. cbn [fst snd] in H.
+      change (g_live_sum_on v1st v1_rec (idx, dat) (s :: ss)) with (rec_len (v1_rec (idx, dat) s) + g_live_sum_on v1st v1_rec (idx, dat) ss).
+      destruct (v1_tile_offset idx s) as [off|]; [|contradiction].
+      destruct (off =? 0).
+      + rewrite H. rewrite IH by (intros; apply Hok; now right). f_equal; lia.
+      + destruct H as [size [E Hlen]]. rewrite E. rewrite <- Hlen.
+        destruct (size =? 0); rewrite IH by (intros; apply Hok; now right); f_equal; lia. }
+  rewrite (G all_slots 0 Hall). cbn [snd]. f_equal. f_equal. unfold B1. lia.
+Qed.
+
+Example v1_ex_run :
+  match v1_run 128 256 ex_ops with
+  | Some st =>
+      rres_eqb (v1_load st (0, 0)) (RData [9]) && rres_eqb (v1_load st (127, 127)) RMissing &&
+      rres_eqb (v1_load st (12, 99)) (RData [8; 8; 8]) && size_eqb (v1_size st) (Some (B1 + 12, B1 + 31)) &&
+      match v1_defrag 128 256 st with
+      | Some (Some st') => (blen (snd st') =? B1 + 12) && rres_eqb (v1_load st' (12, 99)) (RData [8; 8; 8])
+                           && rres_eqb (v1_load st' (0, 0)) (RData [9])
+      | _ => false
+      end
+  | None => false
+  end = true.
+Proof. vm_compute. reflexivity. Qed.
+
+Example v1_ex_ops_ok : Forall (op_ok two32) ex_ops /\ B1 + ops_bytes ex_ops < two40.
+Proof. split; [apply op_okb_sound; vm_compute; reflexivity|vm_compute; reflexivity]. Qed.
